@@ -1,4 +1,5 @@
 import OpusModel.EncSkel
+import OpusModel.EncSkelRanges
 import Driver.Util
 /- Suite `encskel`: replay of opus_encode_native from pre-state + recorded oracles (C02, C05),
    plus the pure helpers (`silkrate`, `gentoc`, `fss`) and the multistream budget split. -/
@@ -63,8 +64,77 @@ def handleNative (toks : List String) : String :=
     | none => "bad-op"
   | _, _, _, _, _, _, _, _, _, _, _, _, _, _ => "bad-op"
 
+/-! Op `wf-native` (slice C02wf): the packet the real encoder emitted for one recorded opus_encode_native call is parsed by
+    the Lean parser (`Opus.Framing.parseImpl`) and compared with the skeleton's prediction for the same call. -/
+
+/-- Answer line: the parser's view of `bytes` (same fields the harness prints from opus_packet_parse_impl /
+    opus_packet_get_nb_samples), `skel` = the skeleton's predicted header / frame lengths / size are what the packet has
+    (or the skeleton makes no prediction: an oracle contract was not met), `dur` = the duration clause of C02. -/
+def wfAnswer (r : NatRes) (fs : Nat) (frame : Int) (bytes : Bytes) : String :=
+  let b01 (b : Bool) : String := if b then "1" else "0"
+  match Opus.Framing.parseImpl false bytes with
+  | .ok p =>
+    let nbs := p.count * Opus.Framing.samplesPerFrame p.toc fs
+    let dur := decide ((nbs : Int) = frame) && p.sizes.all (· ≤ 1275) && decide (p.packetOffset = bytes.length)
+    let hl := r.pkt.hdr.length
+    let skel := !r.ok ||
+      (!r.abort && decide (r.ret = (bytes.length : Int)) && decide (p.toc / 4 * 4 = r.pkt.tocCfg) &&
+       decide (p.sizes = r.pkt.lens) && decide (bytes.take hl = r.pkt.hdr) && decide (p.payloadOffset = hl) &&
+       decide (r.pkt.size = bytes.length) && (bytes.drop (hl + sumN r.pkt.lens)).all (· = 0))
+    let sizes := if p.sizes.isEmpty then "-" else natList p.sizes
+    s!"parse={p.count} toc={p.toc} sizes={sizes} poff={p.payloadOffset} off={p.packetOffset} nbs={nbs} skel={b01 skel} dur={b01 dur}"
+  | e =>
+    let name := resStr (fun (_ : Opus.Framing.Parsed) => "OK") e
+    -- opus_packet_get_nb_samples reads only the TOC / count byte: it may still answer when the full parse fails
+    let nbs := resStr (fun (n : Nat) => toString n) (Opus.Framing.getNbSamples bytes fs)
+    s!"parse={name} toc=0 sizes=- poff=0 off=0 nbs={nbs} skel={b01 (!r.ok)} dur=0"
+
+def wfNative (toks : List String) : String :=
+  let kv := parseKV toks
+  match getInt kv "fuzz", (getInts kv "st").bind stOfList, getInt kv "frame", getInt kv "out",
+        getInt kv "o.sil", getInt kv "o.aval", getInt kv "o.abw", getInt kv "o.vr0", getInt kv "o.vr1",
+        getInt kv "o.vr2", getInt kv "o.mv", getInt kv "o.mm", getInts kv "o.rands", getInt kv "nf",
+        (lookup kv "pkt").bind parseHex with
+  | some fuzz, some st, some frame, some out, some sil, some aval, some abw, some vr0, some vr1, some vr2,
+    some mv, some mm, some rands, some nf, some bytes =>
+    match framesOf kv nf.toNat with
+    | some frames =>
+      let o : NatOr := { isSilence := sil, aValid := aval, aBandwidth := abw, vr0, vr1, vr2, modeVoice := mv,
+                         modeMusic := mm, rands, frames }
+      wfAnswer (encodeNative st (fuzz ≠ 0) frame out o) st.fs.toNat frame bytes
+    | none => "bad-op"
+  | _, _, _, _, _, _, _, _, _, _, _, _, _, _, _ => "bad-op"
+
+/-- Suite op `ranges` (C05 slice Ranges): the trace of one budget function, entry by entry, and whether all entries fit
+    `opus_int32`. -/
+def traceStr (t : List Int) : String :=
+  s!"t={intList t} w={if t.all (fun x => decide (Fits32 x)) then 1 else 0}"
+
+def rangesSt (fs ch ub mode vbr br : Int) : St :=
+  { (default : St) with fs := fs, channels := ch, userBitrate := ub, mode := mode, useVbr := vbr, bitrateBps := br }
+
+def handleRanges (fn : String) (a : List Int) : String :=
+  match fn, a with
+  | "ub", [fs, ch, ub, fsz, m] => traceStr (ubTrace (rangesSt fs ch ub 0 1 0) fsz m)
+  | "cbr", [fs, fsz, b, m] => traceStr (cbrTrace fs fsz b m)
+  | "gate", [fs, fsz, br, cbr, m] => traceStr (gateTrace fs fsz { bitrateBps := br, cbr := cbr, maxDataBytes := m })
+  | "er", [br, ch, fr, vbr, mode, cx, loss] => traceStr (erTrace br ch fr vbr mode cx loss)
+  | "rb", [m, br, fr, ch] => traceStr (rbTrace m br fr ch)
+  | "ml", [fs, mode, vbr, ub, fsz, out, cbr] => traceStr (mlTrace (rangesSt fs 1 ub mode vbr 0) fsz out cbr)
+  | "cm", [fs, br, encFs, nb, mls, tot] =>
+    traceStr (cmTrace (rangesSt fs 1 0 0 1 br) { encFs := encFs, nbFrames := nb, repacketizeLen := 0, maxLenSum := mls } tot)
+  | "bt", [fs, fsz, br, m, red] => traceStr (btTrace fs fsz br m red)
+  | "fss", [fsz, vd, fs] => traceStr (fssTrace fsz vd fs)
+  | "ms", [vbr, br, rs, nb, fs, fsz, m, tot, s] => traceStr (msTrace vbr br rs nb fs fsz m tot s)
+  | _, _ => "bad-op"
+
 def handle : List String → String
+  | "ranges" :: fn :: args =>
+    match args.mapM parseInt with
+    | some a => handleRanges fn a
+    | none => "bad-op"
   | "native" :: toks => handleNative toks
+  | "wf-native" :: toks => wfNative toks
   | ["silkrate", rate, bw, f20, vbr, fec, ch] =>
     match parseInt rate, parseInt bw, parseInt f20, parseInt vbr, parseInt fec, parseInt ch with
     | some rate, some bw, some f20, some vbr, some fec, some ch =>
